@@ -70,9 +70,57 @@ class Ctx:
         self.lineno = None
         self.func = ""
         self.obligations = []
+        self.where_log = []
 
     def decisions_taken(self):
         return self.taken
+
+    # ---- cheap entailment under the quantifier-free part of the path condition (term clean-up only)
+    def _qf(self):
+        if not hasattr(self, "_qf_solver"):
+            self._qf_solver = z3.Solver()
+            self._qf_solver.set("timeout", 300)
+            self._qf_n = [0, 0]
+            self._ent_cache = {}
+        s = self._qf_solver
+        for lst, i in ((self.pc, 0), (self.facts, 1)):
+            while self._qf_n[i] < len(lst):
+                h = lst[self._qf_n[i]]
+                self._qf_n[i] += 1
+                if not has_quantifier(h):
+                    s.add(h)
+                    self._ent_cache.clear()
+        return s
+
+    def entails(self, c):
+        s = self._qf()
+        k = c.get_id()
+        r = self._ent_cache.get(k)
+        if r is None:
+            s.push()
+            s.add(z3.Not(c))
+            r = s.check() == z3.unsat
+            s.pop()
+            self._ent_cache[k] = r
+        return r
+
+    def prune(self, t, depth=0):
+        """resolve If-conditions that the path condition decides (keeps index terms small)"""
+        t = z3.simplify(t)
+        if depth > 12 or not z3.is_app(t) or t.num_args() == 0:
+            return t
+        if z3.is_app_of(t, z3.Z3_OP_ITE):
+            c = t.arg(0)
+            if self.entails(c):
+                return self.prune(t.arg(1), depth + 1)
+            if self.entails(z3.Not(c)):
+                return self.prune(t.arg(2), depth + 1)
+            return z3.If(c, self.prune(t.arg(1), depth + 1), self.prune(t.arg(2), depth + 1))
+        k = t.decl().kind()
+        if k in (z3.Z3_OP_ADD, z3.Z3_OP_SUB, z3.Z3_OP_MUL, z3.Z3_OP_IDIV, z3.Z3_OP_MOD, z3.Z3_OP_UMINUS):
+            ch = [self.prune(c, depth + 1) for c in t.children()]
+            return z3.simplify(t.decl()(*ch))
+        return t
 
     def hyps(self):
         return self.pc + self.facts
@@ -125,7 +173,7 @@ class Ctx:
         self.pc.append(cond if d else z3.Not(cond))
         return d
 
-    def oblige(self, oid, goal, kind="post", detail=""):
+    def oblige(self, oid, goal, kind="post", detail="", assume=True):
         goal = term(goal)
         g = z3.simplify(goal)
         if len(self.taken) >= len(self.prefix):     # otherwise already emitted by the parent path
@@ -134,7 +182,8 @@ class Ctx:
                 ob.result, ob.backend = "proved", "simplifier"
             self.session.add_obligation(ob)
         # assert-then-assume: later obligations on this path may use it
-        self.pc.append(goal)
+        if assume:
+            self.pc.append(goal)
 
     def safety(self, kind, goal, detail=""):
         goal = term(goal)
